@@ -11,6 +11,13 @@ package discovery
 //     agree (count, status-code counts, min/max time exactly; averages up to 1e-3);
 //   - against an independent tally: count == number of records of the endpoint == sum of its status-code counts,
 //     min/max are the extreme timestamps, the average duration is the true mean.
+//
+// Second test, with path-parameter inference switched on (the tree the plugin really uses: assumed path parameters,
+// split threshold 2): streams of length <= 4 over GET x {a.com/u/1 .. a.com/u/4} x status {200,500}, every cut into two
+// consecutive batches. URLs seen before the tree converges are re-keyed under the inferred parameter later, so the oracle
+// here is the batch-free run itself plus conservation: the statistics after two batches equal the statistics of the
+// whole stream (same endpoints, counts, status-code counts, min/max times), and the counts add up to the number of
+// records.
 // Labelled bounded: never counted as proved.
 
 import (
@@ -134,4 +141,88 @@ func TestBoundedC15BatchBoundariesDoNotMatter(t *testing.T) {
 		}
 	}
 	t.Logf("REPLAY bounded: %d (stream, batching) cases checked", checked)
+}
+
+func TestBoundedC15BatchBoundariesWithInferredPathParameters(t *testing.T) {
+	urls := []string{"a.com/u/1", "a.com/u/2", "a.com/u/3", "a.com/u/4"}
+	statuses := []int{200, 500}
+	choices := len(urls) * len(statuses)
+	newTree := func() common.SimpleURLTreeI {
+		tree, err := common.BuildTree(sharedDiscovery.KnownEndpoints{}, 2)
+		if err != nil {
+			t.Fatal(err)
+		}
+		return tree
+	}
+	same := func(what string, a, b Agg, stream []AccessLog) {
+		if len(a.Endpoints) != len(b.Endpoints) {
+			t.Fatalf("REPLAY %s: %d endpoints after two batches, %d for the whole stream (stream %+v): %+v vs %+v", what, len(a.Endpoints), len(b.Endpoints), stream, a.Endpoints, b.Endpoints)
+		}
+		for ep, x := range a.Endpoints {
+			y, ok := b.Endpoints[ep]
+			if !ok {
+				t.Fatalf("REPLAY %s: endpoint %+v exists after two batches only (stream %+v)", what, ep, stream)
+			}
+			if x.Count != y.Count || x.MinTime != y.MinTime || x.MaxTime != y.MaxTime || len(x.StatusCodes) != len(y.StatusCodes) {
+				t.Fatalf("REPLAY %s: endpoint %+v differs: %+v after two batches, %+v for the whole stream (stream %+v)", what, ep, x, y, stream)
+			}
+			for code, c := range x.StatusCodes {
+				if y.StatusCodes[code] != c {
+					t.Fatalf("REPLAY %s: endpoint %+v status %d: %d after two batches, %d for the whole stream (stream %+v)", what, ep, code, c, y.StatusCodes[code], stream)
+				}
+			}
+		}
+	}
+	checked := 0
+	for n := 1; n <= 4; n++ {
+		total := 1
+		for i := 0; i < n; i++ {
+			total *= choices
+		}
+		for code := 0; code < total; code++ {
+			stream := make([]AccessLog, n)
+			c := code
+			for i := 0; i < n; i++ {
+				d := c % choices
+				c /= choices
+				stream[i] = AccessLog{
+					Timestamp: int64(1000 + 10*((i+code)%n)), Method: "GET", URL: urls[d%len(urls)], StatusCode: statuses[d/len(urls)],
+					Duration: 3, TotalDuration: 4, Interceptor: "py/1.0", ConsumerTag: "",
+				}
+			}
+			once, err := GetUpdatedAggregations(Agg{}, stream, newTree())
+			if err != nil {
+				t.Fatalf("REPLAY whole stream: %v", err)
+			}
+			sum := 0
+			for _, e := range once.Endpoints {
+				sum += int(e.Count)
+				per := 0
+				for _, k := range e.StatusCodes {
+					per += int(k)
+				}
+				if per != int(e.Count) {
+					t.Fatalf("REPLAY whole stream %+v: an endpoint counts %d requests and %d status codes", stream, e.Count, per)
+				}
+			}
+			if sum != n {
+				t.Fatalf("REPLAY whole stream %+v: %d records, the endpoints count %d", stream, n, sum)
+			}
+			for cut := 1; cut < n; cut++ {
+				tree := newTree()
+				first, err := GetUpdatedAggregations(Agg{}, stream[:cut], tree)
+				if err != nil {
+					t.Fatalf("REPLAY first batch: %v", err)
+				}
+				both, err := GetUpdatedAggregations(first, stream[cut:], tree)
+				if err != nil {
+					t.Fatalf("REPLAY second batch: %v", err)
+				}
+				same("inferred path parameters", both, once, stream)
+				checked++
+			}
+			checked++
+		}
+	}
+	t.Logf("REPLAY bounded: %d (stream, batching) cases with inferred path parameters checked", checked)
 }
